@@ -1021,3 +1021,10 @@ def prov_rand(tier, seed, ci, nc, count=20000):
 
 
 STREAMS['prov_rand'] = prov_rand
+
+
+def probes_c15(tier, seed, ci, nc):
+    return _slice(iter([('rt:fallback',)]), ci, nc)
+
+
+STREAMS['probes_c15'] = probes_c15
